@@ -235,39 +235,51 @@ package stackage
 //@ func (*stack).push
 //@ tags C01,C03,C13
 //@ requires wf(r) && okslice(x, alloc) && arr(x) != arr(hdr(r))
-//@ requires F_nodeConfig_ppf[cfgOf(r)] == nil
 //@ let nn := bit(F_nodeConfig_opt[cfgOf(r)], 0x0100)
 //@ let cp := F_nodeConfig_cap[cfgOf(r)]
 //@ let len0 := len(hdr(r))
 //@ let n := len(x)
-//@ ensures[C01,C03,C13:push.len] len(hdr(r)) == plen(old(Mem_Val), x, nn, cp, len0, n)
-//@ ensures[C01,C03,C13:push.stored] forall j :: 0 <= j && j < n && stored(old(Mem_Val), x, nn, cp, len0, j) ==> slot(r, plen(old(Mem_Val), x, nn, cp, len0, j)) == old(x[j])
+//@ requires G_calls_len >= 0
+//@ let pp := F_nodeConfig_ppf[cfgOf(r)]
+//@ let cf := cfgOf(r)
+//@ let c0 := G_calls_len
+//@ let M0 := Mem_Val
+//@ ensures[C01,C03,C13:push.len] pp == nil ==> (len(hdr(r)) == plen(old(Mem_Val), x, nn, cp, len0, n))
+//@ ensures[C01,C03,C13:push.stored] pp == nil ==> (forall j :: 0 <= j && j < n && stored(old(Mem_Val), x, nn, cp, len0, j) ==> slot(r, plen(old(Mem_Val), x, nn, cp, len0, j)) == old(x[j]))
 //@ ensures[C01,C03:push.kept] forall k :: 0 <= k && k < len0 ==> slot(r, k) == old(slot(r, k))
-//@ ensures[C01:push.plain] cp == 0 && !nn ==> len(hdr(r)) == len0 + n && (forall j :: 0 <= j && j < n ==> slot(r, len0 + j) == old(x[j]))
+//@ ensures[C01:push.plain] pp == nil ==> (cp == 0 && !nn ==> len(hdr(r)) == len0 + n && (forall j :: 0 <= j && j < n ==> slot(r, len0 + j) == old(x[j])))
 //@ ensures[C03:push.wf] wf(r) && cfgOf(r) == old(cfgOf(r))
 //@ ensures[:push.own] arr(hdr(r)) == old(arr(hdr(r))) || fresh(arr(hdr(r)))
-//@ modifies Cell_stack[r], Mem_Val[old(arr(hdr(r)))], Mem_Val[fresh], F_nodeConfig_ldr[cfgOf(r)], G_held
+//@ ensures[C14,C03:push.pol.outcome] pp != nil ==> (exists e :: 0 <= e && e <= n && (forall j :: 0 <= j && j < e && pcalled(cp, len0, j) ==> pres(M0, x, pp, cp, len0, c0, j) == nil) && len(hdr(r)) == alen(cp, len0, e) && (e == n ==> G_calls_len == acalls(cp, len0, c0, n) && F_nodeConfig_err[cf] == old(F_nodeConfig_err[cf])) && (e < n ==> pcalled(cp, len0, e) && pres(M0, x, pp, cp, len0, c0, e) != nil && G_calls_len == acalls(cp, len0, c0, e) + 1 && F_nodeConfig_err[cf] == pres(M0, x, pp, cp, len0, c0, e)) && (forall j :: 0 <= j && j < e && pcalled(cp, len0, j) ==> slot(r, alen(cp, len0, j)) == old(x[j])) && (forall j :: 0 <= j && j < n && (j < e || j == e) && pcalled(cp, len0, j) ==> G_calls_fn[acalls(cp, len0, c0, j)] == pp && G_calls_arg[acalls(cp, len0, c0, j)] == old(x[j])))
+//@ ensures[C14:push.pol.log.kept] pp != nil ==> (forall k :: 0 <= k && k < c0 ==> G_calls_fn[k] == old(G_calls_fn[k]) && G_calls_arg[k] == old(G_calls_arg[k]))
+//@ modifies Cell_stack[r], Mem_Val[old(arr(hdr(r)))], Mem_Val[fresh], F_nodeConfig_ldr[cfgOf(r)], G_held, F_nodeConfig_err[cfgOf(r)], G_calls_len, G_calls_fn, G_calls_arg
 
 //@ func (Stack).Push
 //@ tags C01,C03,C13
 //@ safety C08,C17
 //@ requires r == nil || wf(r)
 //@ requires okslice(y, alloc) && (r != nil ==> arr(y) != arr(hdr(r)))
-//@ requires r != nil ==> F_nodeConfig_ppf[cfgOf(r)] == nil
 //@ let o := F_nodeConfig_opt[cfgOf(r)]
 //@ let nn := bit(o, 0x0100)
 //@ let cp := F_nodeConfig_cap[cfgOf(r)]
 //@ let len0 := len(hdr(r))
 //@ let n := len(y)
 //@ let go := r != nil && !bit(o, 0x0080)
-//@ ensures[C01:Push.plain] go && cp == 0 && !nn ==> len(hdr(r)) == len0 + n && (forall j :: 0 <= j && j < n ==> slot(r, len0 + j) == old(y[j]))
-//@ ensures[C03,C13:Push.len] go ==> len(hdr(r)) == plen(old(Mem_Val), y, nn, cp, len0, n)
-//@ ensures[C03,C13:Push.stored] go ==> forall j :: 0 <= j && j < n && stored(old(Mem_Val), y, nn, cp, len0, j) ==> slot(r, plen(old(Mem_Val), y, nn, cp, len0, j)) == old(y[j])
+//@ requires G_calls_len >= 0
+//@ let pp := F_nodeConfig_ppf[cfgOf(r)]
+//@ let cf := cfgOf(r)
+//@ let c0 := G_calls_len
+//@ let M0 := Mem_Val
+//@ ensures[C01:Push.plain] pp == nil ==> (go && cp == 0 && !nn ==> len(hdr(r)) == len0 + n && (forall j :: 0 <= j && j < n ==> slot(r, len0 + j) == old(y[j])))
+//@ ensures[C03,C13:Push.len] pp == nil ==> (go ==> len(hdr(r)) == plen(old(Mem_Val), y, nn, cp, len0, n))
+//@ ensures[C03,C13:Push.stored] pp == nil ==> (go ==> forall j :: 0 <= j && j < n && stored(old(Mem_Val), y, nn, cp, len0, j) ==> slot(r, plen(old(Mem_Val), y, nn, cp, len0, j)) == old(y[j]))
 //@ ensures[C01,C03:Push.kept] r != nil ==> forall k :: 0 <= k && k < len0 ==> slot(r, k) == old(slot(r, k))
 //@ ensures[C09:Push.ro] r != nil && bit(o, 0x0080) ==> hdr(r) == old(hdr(r))
 //@ ensures[C01,C03:Push.wf] r != nil ==> wf(r) && cfgOf(r) == old(cfgOf(r))
 //@ ensures[:Push.ret] result == r
-//@ modifies Cell_stack[r], Mem_Val[old(arr(hdr(r)))], Mem_Val[fresh], F_nodeConfig_ldr[cfgOf(r)], G_held
+//@ ensures[C14,C03:Push.pol.outcome] go && pp != nil ==> (exists e :: 0 <= e && e <= n && (forall j :: 0 <= j && j < e && pcalled(cp, len0, j) ==> pres(M0, y, pp, cp, len0, c0, j) == nil) && len(hdr(r)) == alen(cp, len0, e) && (e == n ==> G_calls_len == acalls(cp, len0, c0, n) && F_nodeConfig_err[cf] == old(F_nodeConfig_err[cf])) && (e < n ==> pcalled(cp, len0, e) && pres(M0, y, pp, cp, len0, c0, e) != nil && G_calls_len == acalls(cp, len0, c0, e) + 1 && F_nodeConfig_err[cf] == pres(M0, y, pp, cp, len0, c0, e)) && (forall j :: 0 <= j && j < e && pcalled(cp, len0, j) ==> slot(r, alen(cp, len0, j)) == old(y[j])) && (forall j :: 0 <= j && j < n && (j < e || j == e) && pcalled(cp, len0, j) ==> G_calls_fn[acalls(cp, len0, c0, j)] == pp && G_calls_arg[acalls(cp, len0, c0, j)] == old(y[j])))
+//@ ensures[C14:Push.pol.log.kept] go && pp != nil ==> (forall k :: 0 <= k && k < c0 ==> G_calls_fn[k] == old(G_calls_fn[k]) && G_calls_arg[k] == old(G_calls_arg[k]))
+//@ modifies Cell_stack[r], Mem_Val[old(arr(hdr(r)))], Mem_Val[fresh], F_nodeConfig_ldr[cfgOf(r)], G_held, F_nodeConfig_err[cfgOf(r)], G_calls_len, G_calls_fn, G_calls_arg
 
 //@ func (Stack).IsEmpty
 //@ tags C01
@@ -448,13 +460,16 @@ package stackage
 //@ modifies nothing
 
 //@ func (Condition).Valid
-//@ tags C06
+//@ tags C06,C14
 //@ safety C06,C17
 //@ requires r == nil || cwf(r)
-//@ requires r != nil ==> F_nodeConfig_vpf[F_condition_cfg[r]] == nil
-//@ ensures[C06:Valid] r != nil ==> (err == nil) == condValid(F_condition_kw[r], F_condition_op[r], F_condition_ex[r])
+//@ let vp := F_nodeConfig_vpf[F_condition_cfg[r]]
+//@ let c0 := G_calls_len
+//@ ensures[C06:Valid] r != nil && vp == nil ==> (err == nil) == condValid(F_condition_kw[r], F_condition_op[r], F_condition_ex[r])
+//@ ensures[C14:Cond.Valid.policy] r != nil && vp != nil ==> err == dyn_Val_0(vp, v_Cond(r), c0)
 //@ ensures[C17:Valid.nil] r == nil ==> err != nil
-//@ modifies nothing
+//@ ensures[C14:Valid.calls] G_calls_len == ite(r != nil && vp != nil, c0 + 1, c0)
+//@ modifies G_calls_len, G_calls_fn, G_calls_arg
 
 //@ func (Condition).CanNest
 //@ tags C13
@@ -936,3 +951,270 @@ package stackage
 //@ requires r == nil || wf(r)
 //@ ensures[C18:Auxiliary] aux == ite(r != nil, F_nodeConfig_aux[cfgOf(r)], nil)
 //@ modifies nothing
+
+// ---------------------------------------------------------------------
+// C14: policy-gated append
+
+//@ func (*stack).methodAppend
+//@ tags C14,C03
+//@ safety C08
+//@ requires wf(r) && okslice(x, alloc) && arr(x) != arr(hdr(r)) && meth != nil && G_calls_len >= 0
+//@ let cp := F_nodeConfig_cap[cfgOf(r)]
+//@ let cf := cfgOf(r)
+//@ let len0 := len(hdr(r))
+//@ let c0 := G_calls_len
+//@ let n := len(x)
+//@ let M0 := Mem_Val
+//@ ensures[C14,C03:ma.outcome] exists e :: 0 <= e && e <= n
+//@      && (forall j :: 0 <= j && j < e && pcalled(cp, len0, j) ==> pres(M0, x, meth, cp, len0, c0, j) == nil)
+//@      && len(hdr(r)) == alen(cp, len0, e)
+//@      && (e == n ==> G_calls_len == acalls(cp, len0, c0, n) && F_nodeConfig_err[cf] == old(F_nodeConfig_err[cf]))
+//@      && (e < n ==> pcalled(cp, len0, e) && pres(M0, x, meth, cp, len0, c0, e) != nil && G_calls_len == acalls(cp, len0, c0, e) + 1 && F_nodeConfig_err[cf] == pres(M0, x, meth, cp, len0, c0, e))
+//@      && (forall j :: 0 <= j && j < e && pcalled(cp, len0, j) ==> slot(r, alen(cp, len0, j)) == old(x[j]))
+//@      && (forall j :: 0 <= j && j < n && (j < e || j == e) && pcalled(cp, len0, j) ==> G_calls_fn[acalls(cp, len0, c0, j)] == meth && G_calls_arg[acalls(cp, len0, c0, j)] == old(x[j]))
+//@ ensures[C14,C03:ma.kept] forall k :: 0 <= k && k < len0 ==> slot(r, k) == old(slot(r, k))
+//@ ensures[C03,C14:ma.wf] wf(r) && cfgOf(r) == cf
+//@ ensures[C14:ma.log.kept] forall k :: 0 <= k && k < c0 ==> G_calls_fn[k] == old(G_calls_fn[k]) && G_calls_arg[k] == old(G_calls_arg[k])
+//@ ensures[:ma.own] arr(hdr(r)) == old(arr(hdr(r))) || fresh(arr(hdr(r)))
+//@ modifies Cell_stack[r], Mem_Val[old(arr(hdr(r)))], Mem_Val[fresh], F_nodeConfig_err[cfgOf(r)], G_calls_len, G_calls_fn, G_calls_arg
+//@ loop 1 invariant 0 <= i && i <= n && wf(r) && cfgOf(r) == cf && off(hdr(r)) == 0
+//@ loop 1 invariant len(hdr(r)) == alen(cp, len0, i) && len(hdr(r)) >= len0 && G_calls_len == acalls(cp, len0, c0, i) && G_calls_len >= c0
+//@ loop 1 invariant F_nodeConfig_err[cf] == old(F_nodeConfig_err[cf])
+//@ loop 1 invariant forall j :: 0 <= j && j < i && pcalled(cp, len0, j) ==> pres(M0, x, meth, cp, len0, c0, j) == nil
+//@ loop 1 invariant forall j :: 0 <= j && j < i ==> alen(cp, len0, j) <= len(hdr(r)) && alen(cp, len0, j) >= len0 && acalls(cp, len0, c0, j) <= G_calls_len && acalls(cp, len0, c0, j) >= c0 && (pcalled(cp, len0, j) ==> alen(cp, len0, j) < len(hdr(r)) && acalls(cp, len0, c0, j) < G_calls_len)
+//@ loop 1 invariant forall j :: 0 <= j && j < i && pcalled(cp, len0, j) ==> cell(hdr(r), alen(cp, len0, j)) == old(x[j])
+//@ loop 1 invariant forall j :: 0 <= j && j < i && pcalled(cp, len0, j) ==> G_calls_fn[acalls(cp, len0, c0, j)] == meth && G_calls_arg[acalls(cp, len0, c0, j)] == old(x[j])
+//@ loop 1 invariant forall k :: 0 <= k && k < c0 ==> G_calls_fn[k] == old(G_calls_fn[k]) && G_calls_arg[k] == old(G_calls_arg[k])
+//@ loop 1 invariant forall q :: 0 <= q && q < len0 ==> cell(hdr(r), q) == old(cell(hdr(r), q))
+//@ loop 1 invariant arr(hdr(r)) == old(arr(hdr(r))) || fresh(arr(hdr(r)))
+//@ loop 1 invariant memSameExcept(Mem_Val, old(Mem_Val), old(arr(hdr(r))), old(alloc))
+//@ loop 1 invariant hdrsSameExcept(Cell_stack, old(Cell_stack), r, old(alloc))
+//@ loop 1 invariant forall q :: 0 <= q && q < old(alloc) && q != cf ==> F_nodeConfig_err[q] == old(F_nodeConfig_err[q])
+
+
+
+// ---------------------------------------------------------------------
+// C14: registration and dispatch of the other user closures
+
+//@ func (Stack).SetPushPolicy
+//@ tags C14
+//@ safety C08,C17
+//@ requires r == nil || wf(r)
+//@ let c := cfgOf(r)
+//@ let o := F_nodeConfig_opt[c]
+//@ ensures[C14:Stack.SetPushPolicy] r != nil && !bit(o, 0x0080) && true ==> F_nodeConfig_ppf[c] == ppol
+//@ ensures[C14,C09:Stack.SetPushPolicy.kept] r != nil && (bit(o, 0x0080) || !(true)) ==> F_nodeConfig_ppf[c] == old(F_nodeConfig_ppf[c])
+//@ modifies F_nodeConfig_ppf[c], F_nodeConfig_ldr[c], G_held, F_nodeConfig_err[c]
+
+//@ func (Stack).SetValidityPolicy
+//@ tags C14
+//@ safety C08,C17
+//@ requires r == nil || wf(r)
+//@ let c := cfgOf(r)
+//@ let o := F_nodeConfig_opt[c]
+//@ ensures[C14:Stack.SetValidityPolicy] r != nil && !bit(o, 0x0080) && true ==> F_nodeConfig_vpf[c] == vpol
+//@ ensures[C14,C09:Stack.SetValidityPolicy.kept] r != nil && (bit(o, 0x0080) || !(true)) ==> F_nodeConfig_vpf[c] == old(F_nodeConfig_vpf[c])
+//@ modifies F_nodeConfig_vpf[c], F_nodeConfig_ldr[c], G_held, F_nodeConfig_err[c]
+
+//@ func (Stack).SetPresentationPolicy
+//@ tags C14
+//@ safety C08,C17
+//@ requires r == nil || wf(r)
+//@ let c := cfgOf(r)
+//@ let o := F_nodeConfig_opt[c]
+//@ ensures[C14:Stack.SetPresentationPolicy] r != nil && !bit(o, 0x0080) && F_nodeConfig_typ[c] != 0x06 ==> F_nodeConfig_rpf[c] == ppol
+//@ ensures[C14,C09:Stack.SetPresentationPolicy.kept] r != nil && (bit(o, 0x0080) || !(F_nodeConfig_typ[c] != 0x06)) ==> F_nodeConfig_rpf[c] == old(F_nodeConfig_rpf[c])
+//@ modifies F_nodeConfig_rpf[c], F_nodeConfig_ldr[c], G_held, F_nodeConfig_err[c]
+
+//@ func (Stack).SetEqualityPolicy
+//@ tags C14
+//@ safety C08,C17
+//@ requires r == nil || wf(r)
+//@ let c := cfgOf(r)
+//@ let o := F_nodeConfig_opt[c]
+//@ ensures[C14:Stack.SetEqualityPolicy] r != nil && !bit(o, 0x0080) && true ==> F_nodeConfig_eqf[c] == ite(len(fn) == 0, nil, fn[0])
+//@ ensures[C14,C09:Stack.SetEqualityPolicy.kept] r != nil && (bit(o, 0x0080) || !(true)) ==> F_nodeConfig_eqf[c] == old(F_nodeConfig_eqf[c])
+//@ modifies F_nodeConfig_eqf[c], F_nodeConfig_ldr[c], G_held, F_nodeConfig_err[c]
+
+//@ func (Stack).SetUnmarshaler
+//@ tags C14
+//@ safety C08,C17
+//@ requires r == nil || wf(r)
+//@ let c := cfgOf(r)
+//@ let o := F_nodeConfig_opt[c]
+//@ ensures[C14:Stack.SetUnmarshaler] r != nil && !bit(o, 0x0080) && true ==> F_nodeConfig_umf[c] == ite(len(fn) == 0, nil, fn[0])
+//@ ensures[C14,C09:Stack.SetUnmarshaler.kept] r != nil && (bit(o, 0x0080) || !(true)) ==> F_nodeConfig_umf[c] == old(F_nodeConfig_umf[c])
+//@ modifies F_nodeConfig_umf[c], F_nodeConfig_ldr[c], G_held, F_nodeConfig_err[c]
+
+//@ func (Stack).SetMarshaler
+//@ tags C14
+//@ safety C08,C17
+//@ requires r == nil || wf(r)
+//@ let c := cfgOf(r)
+//@ let o := F_nodeConfig_opt[c]
+//@ ensures[C14:Stack.SetMarshaler] r != nil && !bit(o, 0x0080) && true ==> F_nodeConfig_maf[c] == ite(len(fn) == 0, nil, fn[0])
+//@ ensures[C14,C09:Stack.SetMarshaler.kept] r != nil && (bit(o, 0x0080) || !(true)) ==> F_nodeConfig_maf[c] == old(F_nodeConfig_maf[c])
+//@ modifies F_nodeConfig_maf[c], F_nodeConfig_ldr[c], G_held, F_nodeConfig_err[c]
+
+//@ func (Condition).SetValidityPolicy
+//@ tags C14
+//@ safety C08,C17
+//@ requires r == nil || cwf(r)
+//@ let c := F_condition_cfg[r]
+//@ let o := F_nodeConfig_opt[c]
+//@ ensures[C14:Condition.SetValidityPolicy] r != nil && !bit(o, 0x0080) && true ==> F_nodeConfig_vpf[c] == x
+//@ ensures[C14,C09:Condition.SetValidityPolicy.kept] r != nil && (bit(o, 0x0080) || !(true)) ==> F_nodeConfig_vpf[c] == old(F_nodeConfig_vpf[c])
+//@ modifies F_nodeConfig_vpf[c], F_nodeConfig_err[c]
+
+//@ func (Condition).SetPresentationPolicy
+//@ tags C14
+//@ safety C08,C17
+//@ requires r == nil || cwf(r)
+//@ let c := F_condition_cfg[r]
+//@ let o := F_nodeConfig_opt[c]
+//@ ensures[C14:Condition.SetPresentationPolicy] r != nil && !bit(o, 0x0080) && true ==> F_nodeConfig_rpf[c] == x
+//@ ensures[C14,C09:Condition.SetPresentationPolicy.kept] r != nil && (bit(o, 0x0080) || !(true)) ==> F_nodeConfig_rpf[c] == old(F_nodeConfig_rpf[c])
+//@ modifies F_nodeConfig_rpf[c], F_nodeConfig_err[c]
+
+//@ func (Condition).SetEvaluator
+//@ tags C14
+//@ safety C08,C17
+//@ requires r == nil || cwf(r)
+//@ let c := F_condition_cfg[r]
+//@ let o := F_nodeConfig_opt[c]
+//@ ensures[C14:Condition.SetEvaluator] r != nil && !bit(o, 0x0080) && true ==> F_nodeConfig_evl[c] == x
+//@ ensures[C14,C09:Condition.SetEvaluator.kept] r != nil && (bit(o, 0x0080) || !(true)) ==> F_nodeConfig_evl[c] == old(F_nodeConfig_evl[c])
+//@ modifies F_nodeConfig_evl[c], F_nodeConfig_err[c]
+
+//@ func (Condition).SetEqualityPolicy
+//@ tags C14
+//@ safety C08,C17
+//@ requires r == nil || cwf(r)
+//@ let c := F_condition_cfg[r]
+//@ let o := F_nodeConfig_opt[c]
+//@ ensures[C14:Condition.SetEqualityPolicy] r != nil && !bit(o, 0x0080) && true ==> F_nodeConfig_eqf[c] == ite(len(fn) == 0, nil, fn[0])
+//@ ensures[C14,C09:Condition.SetEqualityPolicy.kept] r != nil && (bit(o, 0x0080) || !(true)) ==> F_nodeConfig_eqf[c] == old(F_nodeConfig_eqf[c])
+//@ modifies F_nodeConfig_eqf[c], F_nodeConfig_err[c]
+
+//@ func (Condition).SetUnmarshaler
+//@ tags C14
+//@ safety C08,C17
+//@ requires r == nil || cwf(r)
+//@ let c := F_condition_cfg[r]
+//@ let o := F_nodeConfig_opt[c]
+//@ ensures[C14:Condition.SetUnmarshaler] r != nil && !bit(o, 0x0080) && true ==> F_nodeConfig_umf[c] == ite(len(fn) == 0, nil, fn[0])
+//@ ensures[C14,C09:Condition.SetUnmarshaler.kept] r != nil && (bit(o, 0x0080) || !(true)) ==> F_nodeConfig_umf[c] == old(F_nodeConfig_umf[c])
+//@ modifies F_nodeConfig_umf[c], F_nodeConfig_err[c]
+
+//@ func (Stack).Valid
+//@ tags C14
+//@ safety C08,C17
+//@ requires r == nil || wf(r)
+//@ let vp := F_nodeConfig_vpf[cfgOf(r)]
+//@ let c0 := G_calls_len
+//@ ensures[C14:Valid.builtin] r != nil && vp == nil ==> err == nil
+//@ ensures[C14:Valid.policy] r != nil && vp != nil ==> (err == nil) == (dyn_Val_0(vp, v_stackp(r), c0) == nil)
+//@ ensures[C17:Valid.nil] r == nil ==> err != nil
+//@ ensures[C14:Valid.calls] G_calls_len == ite(r != nil && vp != nil, c0 + 1, c0)
+//@ modifies G_calls_len, G_calls_fn, G_calls_arg
+
+//@ func (Stack).Unmarshal
+//@ tags C14
+//@ safety C08,C17
+//@ requires r == nil || wf(r)
+//@ let um := F_nodeConfig_umf[cfgOf(r)]
+//@ let c0 := G_calls_len
+//@ ensures[C14:Unmarshal.policy] r != nil && um != nil ==> slice == dyn_Slice_0(um, nil, c0) && err == dyn_Val_1(um, nil, c0)
+//@ ensures[C17:Unmarshal.nil] r == nil ==> len(slice) == 0 && err == nil
+//@ noframe
+
+//@ func (Stack).IsEqual
+//@ tags C14
+//@ safety C17
+//@ requires r == nil || wf(r)
+//@ let eq := F_nodeConfig_eqf[cfgOf(r)]
+//@ let c0 := G_calls_len
+//@ ensures[C14:IsEqual.policy] r != nil && isStackLike(o) && eq != nil ==> result == dyn_Val_0(eq, v_Stack(r), c0)
+//@ ensures[C14:IsEqual.bad] r != nil && !isStackLike(o) ==> result != nil
+//@ ensures[C17:IsEqual.nil] r == nil ==> result != nil
+//@ noframe
+
+//@ func (*stack).string
+//@ tags C14
+//@ safety C02
+//@ requires r == nil || wf(r)
+//@ let c := cfgOf(r)
+//@ let vp := F_nodeConfig_vpf[c]
+//@ let rp := F_nodeConfig_rpf[c]
+//@ let c0 := G_calls_len
+//@ let rejected := vp != nil && dyn_Val_0(vp, v_stackp(r), c0) != nil
+//@ ensures[C14:string.nil] r == nil ==> assembled == ""
+//@ ensures[C14:string.basic] r != nil && F_nodeConfig_typ[c] == 0x06 ==> assembled == ""
+//@ ensures[C14:string.rejected] r != nil && rejected ==> assembled == ""
+//@ ensures[C14:string.policy] r != nil && F_nodeConfig_typ[c] != 0x06 && !rejected && rp != nil ==> assembled == dyn_Str_0(rp, v_stackp(r), ite(vp != nil, c0 + 1, c0))
+//@ noframe
+
+//@ func (Condition).Evaluate
+//@ tags C14
+//@ safety C06,C17
+//@ requires r == nil || cwf(r)
+//@ requires okslice(x, alloc)
+//@ let ev0 := F_nodeConfig_evl[F_condition_cfg[r]]
+//@ let c0 := G_calls_len
+//@ ensures[C14:Evaluate.policy] r != nil && ev0 != nil ==> ev == dyn_Val_0(ev0, ite(len(x) > 0, x[0], nil), c0) && err == dyn_Val_1(ev0, ite(len(x) > 0, x[0], nil), c0)
+//@ ensures[C14:Evaluate.none] r != nil && ev0 == nil ==> ev == nil && err != nil
+//@ ensures[C17:Evaluate.nil] r == nil ==> ev == nil && err == nil
+//@ modifies G_calls_len, G_calls_fn, G_calls_arg
+
+//@ func (*stack).isEqual
+//@ note comparison internals are decided under C05; callers outside C05 learn nothing from this call
+//@ noframe
+
+//@ func (stack).unmarshalDefault
+//@ note decided under C04; callers outside C04 learn nothing from this call
+//@ noframe
+
+//@ func (*condition).isEqual
+//@ note comparison internals are decided under C05
+//@ noframe
+
+//@ func (stack).defaultAssertionHandler
+//@ note element rendering is decided under C02; callers outside C02 learn nothing from this call
+//@ noframe
+
+//@ func (Condition).Unmarshal
+//@ tags C14
+//@ safety C17
+//@ requires r == nil || cwf(r)
+//@ let um := F_nodeConfig_umf[F_condition_cfg[r]]
+//@ let c0 := G_calls_len
+//@ ensures[C14:Cond.Unmarshal.policy] r != nil && um != nil ==> slice == dyn_Slice_0(um, nil, c0) && err == dyn_Val_1(um, nil, c0)
+//@ ensures[C17:Cond.Unmarshal.nil] r == nil ==> len(slice) == 0 && err == nil
+//@ noframe
+
+//@ func (Condition).IsEqual
+//@ tags C14
+//@ safety C17
+//@ requires r == nil || cwf(r)
+//@ let eq := F_nodeConfig_eqf[F_condition_cfg[r]]
+//@ let c0 := G_calls_len
+//@ ensures[C14:Cond.IsEqual.policy] r != nil && isCondLike(o) && eq != nil ==> err == dyn_Val_0(eq, v_Cond(r), c0)
+//@ ensures[C17:Cond.IsEqual.nil] r == nil ==> err == nil
+//@ noframe
+
+//@ func (Condition).String
+//@ tags C14,C06
+//@ safety C06
+//@ requires r == nil || cwf(r)
+//@ let g := F_condition_cfg[r]
+//@ let vp := F_nodeConfig_vpf[g]
+//@ let rp := F_nodeConfig_rpf[g]
+//@ let c0 := G_calls_len
+//@ let verdict := ite(vp != nil, dyn_Val_0(vp, v_Cond(r), c0), ite(condValid(F_condition_kw[r], F_condition_op[r], F_condition_ex[r]), nil, v_err(1)))
+//@ ensures[C06,C17:Cond.String.invalid] r == nil || verdict != nil ==> s == ""
+//@ ensures[C14:Cond.String.policy] r != nil && verdict == nil && rp != nil ==> exists b: Val :: s == dyn_Str_0(rp, b, ite(vp != nil, c0 + 1, c0))
+//@ noframe
+
+//@ func marshalDefault
+//@ note decoding is decided under C04/C16; callers outside those learn nothing from this call
+//@ noframe
